@@ -39,6 +39,7 @@ fn main() {
         "check-text" => parse::check_one(rest),
         "events" => parse::dump_events(rest),
         "gram-cases" => gram::cases(rest),
+        "gram-model-cases" => parse::model_cases(rest),
         "seq-cases" => gram::seq_cases(rest),
         "anz-cases" => anz::cases(rest),
         "inc-cases" => inc::cases(rest),
